@@ -66,6 +66,11 @@ def make_load(b, coef, unit, gen_id):
     coef = list(coef) + [0.0] * (5 - len(coef))
 
     def external_torque(angular_position, angular_speed, time):
+        if getattr(b, 'load_inplace', None):
+            # a user callback that normalises the units of its arguments in place (they are the live objects)
+            for q_, u_ in zip((angular_position, angular_speed, time), b.load_inplace):
+                if u_ is not None:
+                    q_.to(u_, inplace=True)
         p, v, t = qsi(angular_position), qsi(angular_speed), qsi(time)
         b.load_log.append((p, v, t, len(b.pt.time), gen_id))
         val = coef[0] + coef[1] * p + coef[2] * v + coef[3] * t + coef[4] * v * abs(v)
@@ -188,6 +193,7 @@ def build(spec):
     b.E = list(b.pt.elements)
     b.load_log = []
     b.load_gen = 0
+    b.load_inplace = spec['load'].get('inplace')
     b.E[-1].external_torque = make_load(b, spec['load']['coef'], spec['load']['unit'], 0)
     ini = spec['init']
     b.E[-1].angular_position = Q(ini.get('pos_kind', 'AngularPosition'), ini['pos'])
